@@ -173,6 +173,9 @@ type IfaceVal struct{ Alts []IfaceAlt }
 // ---- aggregates (struct / array values, multi-value results)
 type TupleVal struct{ Elems []Value }
 
+// ---- float64 values known to hold an integer (int -> float conversions, math.Max/Min of those)
+type FloatInt struct{ T *Term } // 64-bit signed
+
 // ---- unknown / unsupported value
 type Opaque struct{ Why string }
 
@@ -832,6 +835,12 @@ func (in *Interp) merge(g *Term, a, b Value) Value {
 			return x
 		}
 		return out
+	case *FloatInt:
+		y, ok := b.(*FloatInt)
+		if !ok {
+			return &Opaque{"merge float"}
+		}
+		return &FloatInt{mkIte(g, x.T, y.T)}
 	case *Opaque:
 		return x
 	case *NativeObj:
